@@ -733,6 +733,12 @@ func (g *schemaGenerator) generateStructType(t *schemas.Type, scope nameScope) (
 
 	uniqueNames := make(map[string]int, len(t.Properties))
 
+	// A field must not be named like a method the struct may get ("field and method with the same
+	// name"): properties such as "unmarshalJSON" are suffixed like any other duplicate. Both names are
+	// reserved whether or not the YAML methods are generated, so that the option does not rename fields.
+	uniqueNames["UnmarshalJSON"] = 1
+	uniqueNames["UnmarshalYAML"] = 1
+
 	if t.AdditionalProperties != nil && t.AdditionalProperties.Not == nil {
 		// The struct gets a field of its own for the additional properties (below). A declared property
 		// that maps to the same name is suffixed like any other duplicate.
